@@ -8,7 +8,8 @@ M1  TLC checks spec/RaftWal/RaftWal.tla: the WAL shared by LSM writes and the ra
 M2  TLC -simulate generates operation histories of that spec; each is executed on a real DB whose WAL and
     manifest are shared with real engine.WALStorage instances (the DB's own watchdog, gated flush); the
     process is killed after every prefix of the history and at sampled file operations inside it; a second
-    process reopens the DB and the storages and dumps them.
+    process reopens the DB and the storages and dumps them, then maintains the reopened store with the
+    storages open (watchdog pass, rotate + flush, watchdog pass), closes, reopens and dumps once more.
 M3  TLC validates each crash trace against spec/RaftWal/RaftWalPropTrace.tla.
 """
 import json, os, sys, re, subprocess, shutil
@@ -65,7 +66,10 @@ def run_point(binp, base, sp, mode, n):
     if p.returncode != 77:
         return {"error": "work exit %d: %s" % (p.returncode, p.stderr[-600:])}
     evs = [json.loads(x) for x in open(tr)]
-    p2 = subprocess.run([binp, "recover", "-dir", db, "-sched", sp, "-out", rec], stdout=subprocess.DEVNULL, stderr=subprocess.PIPE, text=True, timeout=120)
+    # the maintenance stage (watchdog / rotate+flush / watchdog with the storages open, then a second reopen)
+    # runs where the WAL can be ahead of a manifest pointer: crashes INSIDE an operation (mode "c")
+    argv2 = [binp, "recover", "-dir", db, "-sched", sp, "-out", rec] + (["-maint"] if mode == "c" else [])
+    p2 = subprocess.run(argv2, stdout=subprocess.DEVNULL, stderr=subprocess.PIPE, text=True, timeout=120)
     res = json.load(open(rec)) if os.path.exists(rec) else {"open": False, "err": "recover process died: " + p2.stderr[-400:]}
     shutil.rmtree(d, ignore_errors=True)
     return {"mode": mode, "n": n, "events": evs, "rec": res}
@@ -83,24 +87,33 @@ def to_trace(pid, sched, pt):
             t.append({"e": e, "g": ev["g"], "idx": ev["idx"], "ok": ev["ok"]})
         elif e == "Maint":
             t.append({"e": "Maint"})
+    def recovered(rec, stage):
+        raft = []
+        for g in rec.get("raft") or []:
+            raft.append({k: g.get(k, 0) for k in ("g", "open", "term", "vote", "commit", "first", "last", "si", "st", "ents", "disk")})
+        if not raft:
+            raft = [{"g": g, "open": False, "term": 0, "vote": 0, "commit": 0, "first": 0, "last": 0, "si": 0, "st": 0, "ents": [], "disk": []} for g in sched["groups"]]
+        return {"e": "Recovered", "stage": stage, "open": bool(rec.get("open")), "lsm": rec.get("lsm") or {k: "ERR" for k in sched["keys"]}, "raft": raft}
     rec = pt["rec"]
-    raft = []
-    for g in rec.get("raft") or []:
-        raft.append({k: g.get(k, 0) for k in ("g", "open", "term", "vote", "commit", "first", "last", "si", "st", "ents", "disk")})
-    if not raft:
-        raft = [{"g": g, "open": False, "term": 0, "vote": 0, "commit": 0, "first": 0, "last": 0, "si": 0, "st": 0, "ents": [], "disk": []} for g in sched["groups"]]
-    t.append({"e": "Recovered", "open": bool(rec.get("open")), "lsm": rec.get("lsm") or {k: "ERR" for k in sched["keys"]}, "raft": raft})
+    t.append(recovered(rec, 1))
+    # the reopened store was maintained with the raft storages open (watchdog, rotate + flush, watchdog), closed
+    # and reopened once more: the same facts must still hold
+    if rec.get("open") and rec.get("second"):
+        t.append({"e": "Maint"})
+        t.append(recovered(rec["second"], 2))
     return t
 
 
 RAFT_RETS = ("RaftAppendRet", "RaftHSRet", "RaftSnapRet")
 
 
-def gc_groups(pt):
+def gc_groups(pt, stage=1):
     """Witness of finding C21-log-gc (RaftWal.tla gcRaft), per raft group: the groups for which a WAL segment
-    that received one of THEIR records (entry, hard state or snapshot) is no longer present after recovery,
-    i.e. was garbage-collected by flush, watchdog or recovery."""
-    present = {int(re.sub(r"\D", "", f)) for f in (pt["rec"].get("wal_after") or [])}
+    that received one of THEIR records (entry, hard state or snapshot) is no longer present at that stage
+    (1 = after recovery, 2 = after maintenance and the second reopen), i.e. was garbage-collected by flush,
+    watchdog or recovery."""
+    rec = pt["rec"] if stage == 1 else (pt["rec"].get("second") or {})
+    present = {int(re.sub(r"\D", "", f)) for f in (rec.get("wal_after") or [])}
     out = set()
     for e in pt["events"]:
         if e["e"] in RAFT_RETS and e.get("ok") and e["seg"] not in present:
@@ -108,14 +121,14 @@ def gc_groups(pt):
     return out
 
 
-def known_gc(pt, want):
+def known_gc(pt, want, stage=1):
     """A rejected Recovered event is the recorded finding only if, under one of the two readings of the
     in-flight call, EVERY contradicting item is a raft group one of whose record-bearing segments was
     garbage-collected. The LSM contents (item 0) or a group that lost no segment are never excused."""
     if not want:
         return False
     sets = [set(int(x) for x in re.findall(r"\d+", m)) for m in re.findall(r"\{([^}]*)\}", want)]
-    gone = gc_groups(pt)
+    gone = gc_groups(pt, stage)
     return bool(gone) and any(b and b <= gone for b in sets)
 
 
@@ -186,7 +199,7 @@ def run(ctx):
     hits, reported = {}, set()
     for (ti, line, pev, want) in rejected:
         s, pt = results[ti]
-        fid = "%s-log-gc" % pid if (pev["e"] == "Recovered" and pev.get("open") and known_gc(pt, want)) else None
+        fid = "%s-log-gc" % pid if (pev["e"] == "Recovered" and pev.get("open") and known_gc(pt, want, pev.get("stage", 1))) else None
         if fid and fid in known:
             if fid not in hits:
                 ctx.known_finding("%s: %s (e.g. schedule %d crash %s%d)" % (fid, known[fid]["what"], s["id"], pt["mode"], pt["n"]))
@@ -199,12 +212,13 @@ def run(ctx):
     # replaced, so the chosen image must hold an acknowledged put (a snapshot may have truncated every entry)
     ctl = None
     for t in traces:
-        rec = t[-1]
+        ri = next(i for i, e in enumerate(t) if e["e"] == "Recovered")
+        rec = t[ri]
         if not (rec["open"] and rec["raft"][0]["open"] and rec["raft"][0]["last"] > 0):
             continue
         if pid == "C36" and not any(a["e"] == "PutCall" and b["e"] == "PutRet" and b["ok"] for a, b in zip(t, t[1:])):
             continue
-        ctl = json.loads(json.dumps(t)); ctl[-1]["raft"][0]["last"] += 1; ctl[-1]["raft"][0]["disk"] = []; ctl[-1]["lsm"] = {k: "zz" for k in ctl[-1]["lsm"]}
+        ctl = json.loads(json.dumps(t[:ri + 1])); ctl[-1]["raft"][0]["last"] += 1; ctl[-1]["raft"][0]["disk"] = []; ctl[-1]["lsm"] = {k: "zz" for k in ctl[-1]["lsm"]}
         break
     if ctl is None:
         raise Undecided("no crash image with raft entries: schedules too small")
@@ -213,6 +227,7 @@ def run(ctx):
     nontriv = {(s["id"], pt["mode"], pt["n"]) for s, pt in results
                if any(e["e"] == "RaftAppendRet" for e in pt["events"]) and any(e["e"] == "Maint" for e in pt["events"])}
     removed = sum(1 for s, pt in results if gc_groups(pt))
+    removed2 = sum(1 for s, pt in results if gc_groups(pt, 2) - gc_groups(pt))
     two_groups = sum(1 for s in scheds if len(s["groups"]) > 1)
     with_snap = sum(1 for s in scheds if any(o["op"] == "RaftSnap" for o in s["ops"]))
     ctx.evidence("fault_enumeration", {
@@ -222,7 +237,7 @@ def run(ctx):
         "samples": [{"schedule": results[0][0], "trace": traces[min(5, len(traces) - 1)]}],
         "states": sum(r.distinct for r in m1s), "transitions": sum(r.generated for r in m1s), "traces_validated_against_impl": len(traces),
         "schedules": len(scheds), "schedules_with_two_groups": two_groups, "schedules_with_snapshot": with_snap,
-        "crash_images_with_gc_of_raft_segment": removed, "mismatches": len(rejected), "known_finding_hits": hits,
+        "crash_images_with_gc_of_raft_segment": removed, "images_where_maintenance_after_reopen_collected_more": removed2, "mismatches": len(rejected), "known_finding_hits": hits,
         "m1_coverage_zero": sorted(set(sum((r.coverage_zero or [] for r in m1s), []))), "negative_control": "rejected as required",
     }, assumptions=["process crash only", "one or two raft groups per schedule; etcd-raft itself is not exercised (storage layer only)",
                     "flush is gated by the harness so that sealed memtables can stay unflushed across watchdog passes"])
